@@ -374,14 +374,25 @@ func TestC11ActionResults(t *testing.T) {
 			ar := w.genValid(true)
 			invalid := "none"
 			if rapid.IntRange(0, 2).Draw(t, "invalid?") == 0 {
-				invalid = rapid.SampledFrom(append(invalidKinds, "inline-mismatch", "garbage-body")).Draw(t, "invalidKind")
+				invalid = rapid.SampledFrom(append(invalidKinds, "inline-mismatch", "inline-mismatch", "inline-mismatch", "garbage-body")).Draw(t, "invalidKind")
 			}
 			verdict := "accept"
 			switch invalid {
 			case "none":
 			case "inline-mismatch":
 				// inline bytes that do not hash to the stated digest: rejected over gRPC (C01), passed through over HTTP
-				ar.OutputFiles = append(ar.OutputFiles, &pb.OutputFile{Path: "mismatch", Digest: &pb.Digest{Hash: goodHash, SizeBytes: 9}, Contents: []byte("123456789")})
+				mm := &pb.OutputFile{Path: "mismatch", Digest: &pb.Digest{Hash: goodHash, SizeBytes: 9}, Contents: []byte("123456789")}
+				if rapid.IntRange(0, 2).Draw(t, "mismatchDigestPresent") > 0 {
+					// the stated digest names a blob the CAS already holds (other bytes,
+					// same or another length than the inlined ones)
+					x := gen.Expand(4711, rapid.SampledFrom([]int{9, 30}).Draw(t, "presentLen"), "text")
+					if err := s.Cache.Put(context.Background(), cache.CAS, gen.SHA(x), int64(len(x)), bytes.NewReader(x)); err != nil {
+						t.Fatal(err)
+					}
+					mm.Digest = &pb.Digest{Hash: gen.SHA(x), SizeBytes: int64(len(x))}
+					E.Label("inline-mismatch:stated-digest-present")
+				}
+				ar.OutputFiles = append(ar.OutputFiles, mm)
 				// (over HTTP such a message is passed through unchanged; whether that is
 				// an upload to refuse is C01's question, not C11's: not generated there)
 				u = upload{via: "grpc"}
